@@ -83,6 +83,27 @@ pub fn check(_sub: &str, cfg: &'static dyn Config, input: &Input, rec: &mut Rec)
             }
             Verdict::Pass
         }
+        Input::Stream { bytes } => {
+            // through the command-line tool, which is built in the dev profile (no optimisation, so no
+            // tail-call elimination: unbounded recursion shows as a stack overflow here)
+            rec.evals += 1;
+            rec.nontrivial = true;
+            if !std::path::Path::new(crate::props::c20::CLI).exists() {
+                return Verdict::Excluded("the command-line tool is not built");
+            }
+            let r = crate::props::c20::run_cli(bytes);
+            if r.signal || matches!(r.status, Some(101) | Some(134) | Some(139)) {
+                let tail = String::from_utf8_lossy(&r.stderr);
+                return Verdict::fail(
+                    "the dev-profile build of the library (inside aisparser) returns a result or an error for every line",
+                    format!("the process died ({}); stderr tail: {}", match r.status { Some(c) => format!("exit code {}", c), None => "killed by a signal: stack overflow or abort".into() }, crate::util::clip(&tail[tail.len().saturating_sub(300)..], 300)),
+                );
+            }
+            if rec.want_note {
+                rec.note = Some(format!("{} bytes through the dev-profile tool: exit {:?}", bytes.len(), r.status));
+            }
+            Verdict::Pass
+        }
         _ => crate::engine::infra_error("C01: unexpected input kind"),
     }
 }
@@ -275,6 +296,20 @@ fn huge_inputs(ctx: &mut Ctx) {
         }
         inputs.push((format!("one line of {} arbitrary bytes", nchars), Input::History { lines: vec![Line::new((0..nchars).map(|i| (i * 31 % 251) as u8).collect(), true)] }));
     }
+    // the same sentences through the dev-profile build (the command-line tool)
+    for &nchars in [30_000usize, 150_000, 400_000].iter() {
+        for first in [b'<', b'>', b'8', b'5', b'E'] {
+            for fillc in [b'0', b'P', b'w'] {
+                let mut p = vec![fillc; nchars];
+                p[0] = first;
+                let mut bytes = build::line(1, 1, None, b"A", &p, 0);
+                bytes.push(b'\n');
+                bytes.extend_from_slice(b"!AIVDM,1,1,,B,177KQJ5000G?tO`K>RA1wUbN0TKH,0*5C\n");
+                ctx.sweep_case("huge-inputs-dev-profile", &crate::adapter::STD, &Input::Stream { bytes }, check);
+            }
+        }
+    }
+    ctx.mark_exhaustive("huge-inputs-dev-profile", "sentences with payloads of 30 000 / 150 000 / 400 000 characters (types 12, 14, 8, 5, 21; filler '0', 'P', 'w') piped through the dev-profile aisparser: the process must not die");
     for (i, (what, input)) in inputs.iter().enumerate() {
         if ctx.sub_failed(sub) {
             break;
